@@ -7,6 +7,7 @@ safety / must-hit / retention / error transparency (DESIGN 4, C12).
 """
 from __future__ import annotations
 
+import asyncio
 import gc
 import weakref
 
@@ -15,6 +16,7 @@ from sim.loop import GRID
 from sim.prop import Prop
 
 EPS = 1e-9
+NESTED_A = "key of the nested call"
 A_VALUES = (1, 1.0, True, "1", 2, (1,))
 B_VALUES = (10, 10.0, 2)
 FLAVOURS = ("sync-fn", "async-fn", "sync-method", "async-method", "async-fn-wrapping-sync")
@@ -86,10 +88,13 @@ class C12(Prop):
         for _ in range(n_ops):
             k = s.weighted((12, 3, 1, 1, 1 if n_recv else 0, 1 if "method" in flavour else 0) if profile in ("history", "deep") else (8, 6, 1, 0, 0, 0), "op")
             if k == 0:
-                form = s.weighted((4, 2, 1, 1), "form")
+                form = s.weighted((4, 2, 1, 1, 1), "form")  # (a), (a=), (a, b), (a, b=), (a, c=) - c is keyword-only
                 a = s.draw(n_a, "a")
                 b = s.draw(len(B_VALUES), "b") if form >= 2 else None
-                ops.append(["call", s.draw(n_recv, "recv"), form, a, b, int(s.chance(1, 8, "raise"))])
+                raises = int(s.chance(1, 8, "raise"))
+                # re-entrancy: while it computes a miss, the wrapped function calls the SAME cached function for another key
+                nested = int((not raises) and s.chance(1, 10, "nested-call"))
+                ops.append(["call", s.draw(n_recv, "recv"), form, a, b, raises, nested])
             elif k == 1:
                 ops.append(["advance", s.draw(4, "adv-kind"), s.draw(4, "adv-entry"), s.draw(3, "adv-off")])
             elif k == 2:
@@ -115,7 +120,7 @@ class C12(Prop):
                    "gen": None if recv is None else recv.gen, "t": sim.now}
             inv[tag] = rec
             sim.event("invoke", tag, rec["bound"], rec["recv"])
-            if raise_next[0] is not None:
+            if raise_next[0] is not None and a != NESTED_A:
                 exc = raise_next[0]
                 rec["raised_tag"] = exc.tag
                 raise exc
@@ -123,40 +128,59 @@ class C12(Prop):
             rec["ref"] = weakref.ref(obj)
             return obj
 
+        nest = [None]  # set by the driver right before a call whose miss must call the cache again
+
+        def nest_sync(a):
+            if nest[0] is not None and a != NESTED_A:
+                call, nest[0] = nest[0], None
+                sim.stats["nested_call_while_computing_a_miss"] += 1
+                call(NESTED_A)
+
+        async def nest_async(a):
+            if nest[0] is not None and a != NESTED_A:
+                call, nest[0] = nest[0], None
+                sim.stats["nested_call_while_computing_a_miss"] += 1
+                await call(NESTED_A)
+
         kwargs = {"limit": limit}
         if expiration is not None:
             kwargs["expiration"] = expiration
         is_async = flavour.startswith("async")
         if flavour == "sync-fn":
             @cache(**kwargs)
-            def fn(a, b=10):
-                return produce(None, a, b)
+            def fn(a, b=10, *, c=0):
+                nest_sync(a)
+                return produce(None, a, (b, c))
             target = [lambda r: fn]
         elif flavour == "async-fn":
             @cache(**kwargs)
-            async def fn(a, b=10):
-                return produce(None, a, b)
+            async def fn(a, b=10, *, c=0):
+                await nest_async(a)
+                return produce(None, a, (b, c))
             target = [lambda r: fn]
         elif flavour == "async-fn-wrapping-sync":
             # an async adapter around a sync function (it exposes __wrapped__ = the sync one): what counts is the adapter
             from haiway import wrap_async
 
-            def sync_original(a, b=10):
-                return produce(None, a, b)
+            def sync_original(a, b=10, *, c=0):
+                nest_sync(a)
+                return produce(None, a, (b, c))
 
             fn = cache(**kwargs)(wrap_async(sync_original))
             target = [lambda r: fn]
         elif flavour == "sync-method":
             class Host(Receiver):
                 @cache(**kwargs)
-                def m(self, a, b=10):
-                    return produce(self, a, b)
+                def m(self, a, b=10, *, c=0):
+                    nest_sync(a)
+                    return produce(self, a, (b, c))
             target = None
         else:
             class Host(Receiver):  # noqa: F811
                 @cache(**kwargs)
-                async def m(self, a, b=10):
-                    return produce(self, a, b)
+                async def m(self, a, b=10, *, c=0):
+                    await nest_async(a)
+                    return produce(self, a, (b, c))
             target = None
         receivers = {}
         if target is None:
@@ -187,6 +211,10 @@ class C12(Prop):
                     sim.event("advance", dt)
                     sim.stats["fault:clock_jump"] += 1
                 elif kind == "gc":
+                    if is_async:
+                        # let the loop drop its own transient references (done-callbacks of tasks that just finished)
+                        await asyncio.sleep(0)
+                        await asyncio.sleep(0)
                     gc.collect()
                     alive = [t for t, r in inv.items() if "ref" in r and r["ref"]() is not None]
                     sim.event("gc", len(alive))
@@ -218,9 +246,11 @@ class C12(Prop):
                         sim.stats["receiver_cloned"] += 1
                         sim.event("clone-receiver", op[1])
                 else:
-                    _k, ridx, form, ai, bi, raises = op
+                    _k, ridx, form, ai, bi, raises = op[:6]
+                    nested = op[6] if len(op) > 6 else 0
                     a = A_VALUES[ai]
-                    b = B_VALUES[bi] if bi is not None else 10
+                    b = B_VALUES[bi] if bi is not None and form != 4 else 10
+                    c_kw = B_VALUES[bi] if form == 4 else 0
                     recv = None
                     if target is None:
                         recv = receivers.get(ridx)
@@ -230,15 +260,18 @@ class C12(Prop):
                     else:
                         f = fn
                     # the receiver *object* is part of the key: a replaced receiver starts a new key
-                    fkey = (recv.gen if recv is not None else None, form, typed(a), typed(b) if bi is not None else None)
+                    fkey = (recv.gen if recv is not None else None, form, typed(a),
+                            (("c", typed(c_kw)) if form == 4 else typed(b)) if bi is not None else None)
                     if form == 0:
                         args, kw = (a,), {}
                     elif form == 1:
                         args, kw = (), {"a": a}
                     elif form == 2:
                         args, kw = (a, b), {}
-                    else:
+                    elif form == 3:
                         args, kw = (a,), {"b": b}
+                    else:
+                        args, kw = (a,), {"c": c_kw}  # differs from other calls only in a keyword-only argument
                     before = counter[0]
                     ncall[0] += 1
                     exc_to_raise = Injected(("call", ncall[0])) if raises else None
@@ -264,6 +297,10 @@ class C12(Prop):
                     sim.event("call", fkey)
                     result = None
                     raised = None
+                    # the nested call is made through the same cached callable (the adapter flavour nests from the sync original:
+                    # not possible there)
+                    nest[0] = f if (nested and flavour != "async-fn-wrapping-sync") else None
+                    nkey = (recv.gen if recv is not None else None, 0, typed(NESTED_A), None)
                     try:
                         result = (await f(*args, **kw)) if is_async else f(*args, **kw)
                     except Injected as exc:
@@ -278,10 +315,41 @@ class C12(Prop):
                         sim.fail("foreign-exception", f"call {fkey} raised {exc!r}, which the wrapped function never raised", flavour=flavour,
                                  error=type(exc).__name__)
                     raise_next[0] = None
-                    invoked = counter[0] - before
-                    if fkey in recency:
-                        recency.remove(fkey)
-                    recency.append(fkey)
+                    nest[0] = None
+                    new_recs = [inv[t] for t in range(before + 1, counter[0] + 1)]
+                    nested_recs = [r for r in new_recs if r["bound"][0] == typed(NESTED_A)]
+                    invoked = len(new_recs) - len(nested_recs)
+
+                    def touch(key):
+                        if key in recency:
+                            recency.remove(key)
+                        recency.append(key)
+
+                    def nested_step():
+                        # the nested call as the reference sees it: a call of its own, made while the outer miss was being computed
+                        n_hit = False
+                        if nkey in entries and nkey in recency:
+                            n_rank = len(recency) - 1 - recency.index(nkey)
+                            n_age = sim.now - entries[nkey][1]
+                            n_hit = n_rank < limit and (expiration is None or n_age < expiration - EPS)
+                        if n_hit and nested_recs:
+                            sim.fail("must-hit", f"nested call {nkey} (made while {fkey} was being computed) is among the {limit} most recently "
+                                     f"used forms and unexpired but the function was invoked again", flavour=flavour, nested=1)
+                        if len(nested_recs) > 1:
+                            sim.fail("double-invocation", f"the nested call invoked the function {len(nested_recs)} times")
+                        if nested_recs:
+                            entries[nkey] = (nested_recs[0]["tag"], nested_recs[0]["t"])
+                        touch(nkey)
+
+                    ran_body = bool(invoked) and nested and flavour != "async-fn-wrapping-sync"
+                    if ran_body and is_async:
+                        touch(fkey)      # async: the entry of the outer call is stored before its body runs ...
+                        nested_step()    # ... so the nested call is the more recent use
+                    elif ran_body:
+                        nested_step()    # sync: the outer entry is stored after the function returned
+                        touch(fkey)
+                    else:
+                        touch(fkey)
                     if invoked > 1:
                         sim.fail("double-invocation", f"one call invoked the function {invoked} times")
                     if must_hit and invoked:
@@ -311,7 +379,7 @@ class C12(Prop):
                             sim.fail("garbage", f"call {fkey} returned {result!r}, not a value produced by the function")
                         rec = inv[result.tag]
                     # safety
-                    want_bound = (typed(a), typed(b))
+                    want_bound = (typed(a), typed((b, c_kw)))
                     if rec["bound"] != want_bound:
                         sim.fail("wrong-key", f"call with bound arguments {want_bound} was answered with the result of an "
                                  f"invocation with {rec['bound']}", flavour=flavour)
